@@ -1,5 +1,5 @@
 """
-C14 — runs ONE timeout scenario on the real pedal in this (fresh) process and prints one JSON line.
+C14 — runs ONE timeout scenario on the real pedal in this (fresh) process and writes one JSON observation.
 
     python timeout_scenario.py '{"program": "busy", "position": "after_return", "limit": 0.25}' [out.json]
 
@@ -16,8 +16,17 @@ guarded hooks (pedal.sandbox.timeout._VERIF_SYNC):
                  _stop_mocking before the grader looks at the thread
   lose_race      (gate_* programs) the student code ends just as the timer fires, is held at the ENTRY of
                  _stop_mocking while the grader gives up on it, and continues after run() returned
+  dies_at_claim  (gate_* programs; needs the `grader:decided` hook) the student code ends, and its thread is gone,
+                 between the grader's decision to give up on it and the terminate() call
 
-Everything the harness waits for has a cap, so a scenario never hangs.
+NO VERDICT DEPENDS ON HOW FAST THIS MACHINE IS.  Every wait has a cap; a cap that expires, or a precondition of the
+forcing that was not met because a thread was starved (the student's code had not got going when the time ran out),
+is recorded in `notes` and makes the whole run INCONCLUSIVE (the harness skips it, it is never a failure).  "The call
+returns within a bounded delay" is judged from samples, not from the clock: a watchdog thread looks every 0.1 s where
+the two threads are, and counts the samples in which the grader thread is blocked on a threading primitive called
+from pedal while the student thread is inside the student's code.  Waiting `limit` seconds accounts for limit/0.1
+such samples; the run is `stuck` when more than (limit + 2.5 s)/0.1 + 1 were counted - samples are at least 0.1 s
+apart and the watchdog needs the GIL as much as the grader does, so a loaded machine gives fewer samples, not more.
 """
 import json
 import os
@@ -26,18 +35,21 @@ import threading
 import time
 
 PROGRAMS = {
-    "busy": "while True:\n    pass\n",
-    "prints": "i = 0\nwhile True:\n    i += 1\n    if i % 5000 == 0:\n        print('e1')\n",
-    "swallow": "while True:\n    try:\n        while True:\n            x = 1\n    except BaseException:\n        pass\n",
-    "swallowprint": ("i = 0\nwhile True:\n    try:\n        while True:\n            i += 1\n"
+    "busy": "_mark()\nwhile True:\n    pass\n",
+    "prints": "_mark()\ni = 0\nwhile True:\n    i += 1\n    if i % 5000 == 0:\n        print('e1')\n",
+    "swallow": "while True:\n    try:\n        _mark()\n        while True:\n            x = 1\n    except BaseException:\n        pass\n",
+    "swallowprint": ("i = 0\nwhile True:\n    try:\n        _mark()\n        while True:\n            i += 1\n"
                      "            if i % 5000 == 0:\n                print('e1')\n    except BaseException:\n        pass\n"),
-    "lock": "import threading\nl = threading.Lock()\nl.acquire()\nl.acquire()\n",
-    "swallow_finish": "print('e1')\ntry:\n    while True:\n        x = 1\nexcept BaseException:\n    pass\ny = 2\n",
-    "swallow_raise": "print('e1')\ntry:\n    while True:\n        x = 1\nexcept BaseException:\n    pass\nraise ValueError('late')\n",
-    "gate_finish": "print('e1')\n_gate()\ny = 2\n",
-    "gate_raise": "print('e1')\n_gate()\nraise ValueError('at the bell')\n",
+    "lock": "import threading\nl = threading.Lock()\nl.acquire()\n_mark()\nl.acquire()\n",
+    "swallow_finish": "print('e1')\ntry:\n    _mark()\n    while True:\n        x = 1\nexcept BaseException:\n    pass\ny = 2\n",
+    "swallow_raise": "print('e1')\ntry:\n    _mark()\n    while True:\n        x = 1\nexcept BaseException:\n    pass\nraise ValueError('late')\n",
+    "gate_finish": "print('e1')\n_mark()\n_gate()\ny = 2\n",
+    "gate_raise": "print('e1')\n_mark()\n_gate()\nraise ValueError('at the bell')\n",
 }
-CAP = 3.0
+PRINTS_FIRST = {"prints", "swallowprint", "swallow_finish", "swallow_raise", "gate_finish", "gate_raise"}
+CAP = 6.0       # cap of every wait (an expired cap => notes => inconclusive)
+TICK = 0.1      # watchdog sampling period
+GRACE = 2.5     # "bounded delay": blocked on student code for more than limit + GRACE
 
 
 def abstract(text):
@@ -53,17 +65,36 @@ def abstract(text):
     return "".join(out)
 
 
+def write_obs(obs):
+    if len(sys.argv) > 2:
+        tmp = sys.argv[2] + ".part"
+        with open(tmp, "w") as fh:
+            json.dump(obs, fh)
+        os.replace(tmp, sys.argv[2])
+    else:
+        sys.__stdout__.write("C14OBS " + json.dumps(obs) + "\n")
+        sys.__stdout__.flush()
+
+
 def main():
     sc = json.loads(sys.argv[1])
     program, position, limit = sc["program"], sc["position"], float(sc.get("limit", 0.25))
+    # hand the GIL over quickly: a surviving student loop would otherwise cost the grader thread 5 ms at every
+    # blocking call (convoy effect); this changes how fast threads alternate, not what they do
+    sys.setswitchinterval(0.0005)
+    import pedal
     from pedal.core.commands import contextualize_report
     from pedal.core.report import MAIN_REPORT
     from pedal.sandbox import commands
     from pedal.sandbox import timeout as tmod
     real_stdout = sys.stdout
+    pedal_dir = os.path.realpath(os.path.dirname(pedal.__file__)) + os.sep
+    threading_file = os.path.realpath(threading.__file__)
+    main_ident = threading.main_thread().ident
 
-    st = {"thread": None}
+    st = {"thread": None, "phase": "init", "ticks": 0, "blocked_ticks": 0, "points": []}
     gate = threading.Event()
+    marked = threading.Event()
     t_at_enter = threading.Event()
     t_at_exit = threading.Event()
     release_t = threading.Event()
@@ -72,31 +103,47 @@ def main():
     def is_student():
         return type(threading.current_thread()).__name__ == "InterruptableThread"
 
+    def capped(event, what, cap=CAP):
+        if not event.wait(cap):
+            notes.append("cap expired: " + what)
+
+    def join_student(thread, what):
+        thread.join(CAP)
+        if thread.is_alive():
+            notes.append("cap expired: " + what)
+
     def sync(point, *info):
+        if not is_student():
+            st["points"].append(point)
         if point == "grader:timer":
             st["thread"] = info[0]
+            # the model assumes the student's code is under way when the time runs out
+            if not marked.is_set():
+                notes.append("precondition: the student's code had not got going when the time ran out")
+            elif program in PRINTS_FIRST and not (sb._current_stdout and "e1" in sb._current_stdout[-1].getvalue()):
+                notes.append("precondition: the student's code had not printed when the time ran out")
             if position == "claim_first":
                 gate.set()
-                if not t_at_exit.wait(CAP):
-                    notes.append("student thread never reached finalize:exit")
+                capped(t_at_exit, "student thread never reached finalize:exit")
                 threading.Timer(0.05, release_t.set).start()
             elif position == "lose_race":
                 gate.set()
-                if not t_at_enter.wait(CAP):
-                    notes.append("student thread never reached finalize:enter")
+                capped(t_at_enter, "student thread never reached finalize:enter")
+        elif point == "grader:decided":
+            if position == "dies_at_claim":
+                gate.set()
+                join_student(info[0], "student thread still alive after losing the claim")
         elif point == "grader:terminated":
             if position == "before_handler":
-                info[0].join(CAP)
-                if info[0].is_alive():
-                    notes.append("student thread still alive after terminate (cap)")
+                join_student(info[0], "student thread still alive after terminate")
         elif point == "finalize:enter" and is_student():
             t_at_enter.set()
             if position in ("after_return", "during_next", "after_next", "lose_race"):
-                release_t.wait(CAP * 3)
+                capped(release_t, "student thread held at finalize:enter was never released", CAP * 3)
         elif point == "finalize:exit" and is_student():
             t_at_exit.set()
             if position == "claim_first":
-                release_t.wait(CAP)
+                capped(release_t, "student thread held at finalize:exit was never released")
 
     have_hooks = hasattr(tmod, "_VERIF_SYNC")
     if have_hooks:
@@ -107,6 +154,52 @@ def main():
     sb = commands.get_sandbox()
     sb.allowed_time = limit
     sb.data["_gate"] = lambda: gate.wait(CAP * 3)
+    sb.data["_mark"] = marked.set
+
+    # ---- watchdog: where are the two threads? (samples, not the clock)
+    def in_student_code(frame):
+        while frame is not None:
+            if frame.f_code.co_filename == "answer.py":
+                return True
+            frame = frame.f_back
+        return False
+
+    def blocked_in_pedal(frame):
+        """the thread's innermost frame is in threading.py and the code that called into threading is pedal's"""
+        if frame is None or os.path.realpath(frame.f_code.co_filename) != threading_file:
+            return None
+        while frame is not None and os.path.realpath(frame.f_code.co_filename) == threading_file:
+            frame = frame.f_back
+        if frame is not None and os.path.realpath(frame.f_code.co_filename).startswith(pedal_dir):
+            return "%s:%s" % (os.path.realpath(frame.f_code.co_filename)[len(pedal_dir):], frame.f_code.co_name)
+        return None
+
+    stuck_after = int((limit + GRACE) / TICK) + 1
+
+    def watchdog():
+        ev = threading.Event()
+        while True:
+            ev.wait(TICK)          # (time.sleep is patched to a no-op during an execution)
+            st["ticks"] += 1
+            if st["phase"] != "e1":
+                continue
+            t = st["thread"]
+            if t is None:
+                t = next((th for th in threading.enumerate() if type(th).__name__ == "InterruptableThread"), None)
+            if t is None:
+                continue
+            frames = sys._current_frames()
+            where = blocked_in_pedal(frames.get(main_ident))
+            if where is not None and in_student_code(frames.get(t.ident)):
+                st["blocked_ticks"] += 1
+                if st["blocked_ticks"] > stuck_after:
+                    write_obs({"scenario": sc, "have_hooks": have_hooks, "notes": notes,
+                               "stuck": {"grader_blocked_in": where, "samples": st["blocked_ticks"],
+                                         "sample_period": TICK, "limit": limit, "points": st["points"]}})
+                    os._exit(0)
+
+    wd = threading.Thread(target=watchdog, daemon=True)
+    wd.start()
 
     def snap():
         return {"exc": type(sb.exception).__name__ if sb.exception is not None else None,
@@ -118,21 +211,26 @@ def main():
     def settle_student():
         t = st["thread"]
         release_t.set()
-        if t is not None:
-            t.join(CAP)
+        if t is not None and program not in ("swallow", "swallowprint", "lock"):
+            join_student(t, "student thread did not end after it was released")
 
     obs = {"scenario": sc, "have_hooks": have_hooks}
     t0 = time.time()
     escaped = None
+    st["phase"] = "e1"
     try:
         commands.run(threaded=True)
     except BaseException as e:      # nothing may escape run()
         escaped = type(e).__name__
         sys.stdout = real_stdout
+    st["phase"] = "between"
     obs["elapsed"] = round(time.time() - t0, 3)
+    obs["blocked_samples"] = st["blocked_ticks"]
     obs["escaped"] = escaped
     obs["at_return"] = snap()
     n_e1 = len(sb._context)
+    if st["thread"] is None:        # no hooks: find the thread anyway (it is a daemon thread of this process)
+        st["thread"] = next((th for th in threading.enumerate() if type(th).__name__ == "InterruptableThread"), None)
 
     if position in ("after_return", "lose_race"):
         settle_student()
@@ -147,15 +245,20 @@ def main():
             threading.Event().wait(0.05)   # time.sleep is patched to a no-op during an execution
     sb.data["_sync"] = _sync
     e2_escaped = None
+    st["phase"] = "e2"
     try:
         commands.run("print('ne')\n_sync()\nprint('xt')\nx = 1\n", filename="answer.py")
     except BaseException as e:
         e2_escaped = type(e).__name__
         sys.stdout = real_stdout
+    st["phase"] = "after"
     if position == "after_next":
         settle_student()
     elif position == "free":
         time.sleep(0.2)
+        # whether the thread has ENDED by now is a matter of scheduling; wait for it (the snapshot below is
+        # what the property talks about: the sandbox after the abandoned thread did whatever it does)
+        settle_student()
     fin = snap()
     e2 = sb._context[-1] if len(sb._context) > n_e1 else None
     e1 = sb._context[n_e1 - 1] if n_e1 else None
@@ -168,13 +271,9 @@ def main():
                 "student_alive": bool(st["thread"] is not None and st["thread"].is_alive())})
     obs["final"] = fin
     obs["notes"] = notes
+    obs["points"] = st["points"]
     sys.stdout = real_stdout
-    if len(sys.argv) > 2:
-        with open(sys.argv[2], "w") as fh:
-            json.dump(obs, fh)
-    else:
-        print("C14OBS " + json.dumps(obs))
-        sys.stdout.flush()
+    write_obs(obs)
     os._exit(0)     # do not wait for (or get killed by) abandoned threads
 
 
